@@ -74,7 +74,7 @@ def validated_python_name(name, value):
 def generated_tokens(text):
     try:
         toky = list(tokenize.generate_tokens(_compat.token_io_readline(text)))
-    except (tokenize.TokenError, SyntaxError) as error:
+    except (tokenize.TokenError, SyntaxError, UnicodeError) as error:
         raise errors.InterfaceError(
             "cannot split %s into tokens: %s" % (_compat.text_repr(text), error), cause=error
         )
